@@ -6,6 +6,7 @@ import (
 	"testing"
 	"time"
 
+	logging "github.com/mdzio/go-logging"
 	"github.com/mdzio/go-mqtt/message"
 
 	"verif/harness/out"
@@ -26,6 +27,12 @@ func c12AckThenClose(idx int, seed uint64) {
 	params := map[string]interface{}{"case": idx, "requests": n, "first_completion_dwell_ms": dwell.Milliseconds()}
 	sink := newSink()
 	defer curSink.Store(nil)
+	// the library's warnings and errors of this case go into the violation record (a recovered panic or
+	// a decode error in the client's processor would explain a missing completion)
+	var lg memLogT
+	logging.SetWriter(&lg)
+	logging.SetLevel(logging.WarningLevel)
+	defer func() { logging.SetLevel(logging.OffLevel); logging.SetWriter(&memLog) }()
 	s, err := openSession(nil, 1<<20)
 	if err != nil {
 		out.Inconclusive("session: "+err.Error(), nil)
@@ -103,6 +110,21 @@ func c12AckThenClose(idx int, seed uint64) {
 		out.Inconclusive("c12close: the client's teardown was not observed", params)
 		return
 	}
+	total := int32(0)
+	for i := 0; i < n; i++ {
+		total += atomic.LoadInt32(&fired[i])
+	}
+	params["completions_fired_in_total"] = total
+	params["packets_handled_by_the_client"] = sink.count("proc.handled", s.cid)
+	lg.mu.Lock()
+	if len(lg.b) > 0 {
+		l := string(lg.b)
+		if len(l) > 3000 {
+			l = l[:3000]
+		}
+		params["library_log"] = l
+	}
+	lg.mu.Unlock()
 	for i := 0; i < n; i++ {
 		if f := atomic.LoadInt32(&fired[i]); f != 1 {
 			out.Violation("c12:completion-missing-at-close", fmt.Sprintf("the peer acknowledged all %d outstanding requests in one write and closed the connection; the completion of request %d (%s) fired %d times", n, i, kinds[i], f), params)
